@@ -763,6 +763,29 @@ func runC18More(c *Ctx) {
 						}
 					}
 				}
+				if !okSite && fn.Parent() == nil {
+					// a synchronous check made by the first user before the checker goroutine exists is equally exclusive:
+					// guarded by counter == 1 and executed before the go statement
+					first := false
+					for _, gd := range guardsOf(ci.Block()) {
+						if op, x, y, ok := cmpOf(gd); ok && op == token.EQL {
+							if k, ok := constInt(y); ok && k == 1 {
+								if _, path := fieldChain(x); len(path) > 0 {
+									first = true
+								}
+							}
+						}
+					}
+					before := false
+					allInstrs(fn, func(in2 ssa.Instruction) {
+						if g, ok := in2.(*ssa.Go); ok {
+							if canReach(ci.(ssa.Instruction), g, nil) && !canReach(g, ci.(ssa.Instruction), nil) {
+								before = true
+							}
+						}
+					})
+					okSite = first && before
+				}
 				c.Check(okSite, "limit check called from the single checker goroutine in "+fnName(fn), p.Pos(ci.Pos()), "inside the goroutine started by the first user", "the check is also run outside the checker goroutine: two checks can interleave, a stale measurement overwrites a newer decision and two forced GCs can fall inside one minimum interval")
 			}
 		}
@@ -942,5 +965,91 @@ func shareRule(c *Ctx, prop string, run func(*Ctx), from []string, id, family, t
 		if want[o.Rule] && !strings.HasPrefix(o.Construct, "floor:") {
 			c.add(o.Verdict, o.Construct, o.Pos, o.Detail)
 		}
+	}
+}
+
+// ---------- C10.R8: no component keeps working on its Start context ----------
+func runC10StartCtx(c *Ctx) {
+	p := c.P
+	c.Rule("R8", "GO", "repo-wide: no goroutine started (directly or through a closure) by a Start(ctx, …) method captures that ctx – component.Start documents that the context is cancelled when start-up is over, so work that outlives Start must run on its own context", 10)
+	nStart := 0
+	bad := 0
+	for _, pk := range p.Pkgs {
+		if !strings.HasPrefix(pk.PkgPath, modPrefix) {
+			continue
+		}
+		for _, fn := range p.AllSrcFuncs(pk) {
+			if fn.Parent() != nil || fn.Name() != "Start" || fn.Signature.Recv() == nil || len(fn.Params) < 2 || !typeIs(fn.Params[1].Type(), "context", "Context") {
+				continue
+			}
+			nStart++
+			ctxParam := fn.Params[1]
+			for _, f := range withAnon(fn) {
+				allInstrs(f, func(in ssa.Instruction) {
+					g, ok := in.(*ssa.Go)
+					if !ok {
+						return
+					}
+					var vals []ssa.Value
+					vals = append(vals, g.Call.Args...)
+					if mc, ok := g.Call.Value.(*ssa.MakeClosure); ok {
+						vals = append(vals, mc.Bindings...)
+					}
+					captured := false
+					for _, v := range vals {
+						for s := range backSlice(v) {
+							if s == ssa.Value(ctxParam) {
+								captured = true
+							}
+							if al, ok := s.(*ssa.Alloc); ok {
+								if st := singleStore(al); st != nil && st.Val == ssa.Value(ctxParam) {
+									captured = true
+								}
+							}
+						}
+					}
+					if captured {
+						bad++
+						c.Bad("goroutine started by "+fnName(fn)+" does not capture the Start context", p.Pos(g.Pos()), "the goroutine captures the context passed to Start, which is cancelled once start-up is over: whatever it does with that context afterwards (blocking reads, exports, storage calls) fails or stops")
+					}
+				})
+			}
+		}
+	}
+	if bad == 0 {
+		c.OK("no Start method hands its context to a goroutine", "-", fmt.Sprintf("%d Start methods scanned", nStart))
+	}
+	for i := 0; i < nStart && i < 10; i++ {
+		c.Rules[c.cur].Instances++
+	}
+}
+
+// ---------- C05.R9: no error is classified by a type assertion anywhere in the collector ----------
+func runC05NoErrAssert(c *Ctx) {
+	p := c.P
+	c.Rule("R9", "TAB", "on the export path (exporterhelper and its internals, consumererror, the OTLP exporters) no type assertion or type switch is applied to an error value: every classification that steers retrying or dropping goes through errors.As/errors.Is and therefore also finds wrapped and joined errors", 100)
+	nFn, bad := 0, 0
+	for _, pk := range p.Pkgs {
+		rel := relPkg(pk.PkgPath)
+		if !strings.HasPrefix(pk.PkgPath, modPrefix) || !(strings.HasPrefix(rel, "exporter/exporterhelper") || strings.HasPrefix(rel, "consumer/consumererror") || rel == "exporter/otlpexporter" || rel == "exporter/otlphttpexporter") {
+			continue
+		}
+		for _, fn := range p.AllSrcFuncs(pk) {
+			nFn++
+			allInstrs(fn, func(in ssa.Instruction) {
+				ta, ok := in.(*ssa.TypeAssert)
+				if !ok || !isErrorType(ta.X.Type()) {
+					return
+				}
+				bad++
+				c.Bad("error classified through the chain in "+fnName(fn), p.Pos(ta.Pos()), fmt.Sprintf("direct type assertion of an error to %s: a wrapped or joined error of that kind is not recognised", ta.AssertedType))
+			})
+		}
+	}
+	if bad == 0 {
+		c.OK("no type assertion on error values in the collector", "-", fmt.Sprintf("%d functions scanned", nFn))
+	}
+	for i := 0; i < nFn && i < 100; i++ {
+		c.Rules[c.cur].Instances++
 	}
 }
